@@ -60,7 +60,13 @@ Record observed := mkObs {
                                                  the (t, source id) pairs whose image it equals *)
   o_nck : Z; o_nsk : Z;
   o_cache : list ((Z * Z) * Z);
-  o_rcache : list (Z * list (Z * Z))
+  o_rcache : list (Z * list (Z * Z));
+  (* helper-level observations: the two cache dictionaries and the two counters are private
+     attributes of CellConversion; when a rewrite of the code keeps them elsewhere the harness
+     cannot read them and says so, and they are not compared (the cells, the generated surfaces
+     and the returned lists, which the caches and counters determine, still are) *)
+  o_cache_known : bool;
+  o_counters_known : bool
 }.
 
 Inductive outcome := OErr (e : Z) (* 1 = KeyError, 2 = RecursionError, 3 = TypeError *) | OOk (o : observed).
@@ -128,9 +134,10 @@ Definition check_obs (du : list (Z * list Z)) (rs : list (list Z)) (s : xstate) 
   list_eqb (pair_eqb Z.eqb cell_eqb) (s_cells s) (o_cells o) &&
   Nat.eqb (List.length (s_surfs s)) (nbase + List.length (o_surfs o)) &&
   forallb (surf_ok (s_surfs s)) (o_surfs o) &&
-  (s_nck s =? o_nck o) && (s_nsk s =? o_nsk o) &&
-  same_entries ckey_eqb (s_cache s) (o_cache o) &&
-  same_entries (pair_eqb Z.eqb (list_eqb zz_eqb)) (s_rcache s) (o_rcache o).
+  (negb (o_counters_known o) || ((s_nck s =? o_nck o) && (s_nsk s =? o_nsk o))) &&
+  (negb (o_cache_known o) ||
+   (same_entries ckey_eqb (s_cache s) (o_cache o) &&
+    same_entries (pair_eqb Z.eqb (list_eqb zz_eqb)) (s_rcache s) (o_rcache o))).
 
 Definition check_case (c : tcase) : bool :=
   match run_case c, k_out c with
@@ -153,9 +160,10 @@ Definition diagnose (c : tcase) : Z :=
       else if negb (list_eqb (pair_eqb Z.eqb cell_eqb) (s_cells s) (o_cells o)) then 3
       else if negb (Nat.eqb (List.length (s_surfs s)) (List.length (k_surfs c) + List.length (o_surfs o))
                     && forallb (surf_ok (s_surfs s)) (o_surfs o)) then 4
-      else if negb ((s_nck s =? o_nck o) && (s_nsk s =? o_nsk o)) then 5
-      else if negb (same_entries ckey_eqb (s_cache s) (o_cache o)) then 6
-      else if negb (same_entries (pair_eqb Z.eqb (list_eqb zz_eqb)) (s_rcache s) (o_rcache o)) then 7
+      else if o_counters_known o && negb ((s_nck s =? o_nck o) && (s_nsk s =? o_nsk o)) then 5
+      else if o_cache_known o && negb (same_entries ckey_eqb (s_cache s) (o_cache o)) then 6
+      else if o_cache_known o &&
+              negb (same_entries (pair_eqb Z.eqb (list_eqb zz_eqb)) (s_rcache s) (o_rcache o)) then 7
       else 0
   | Err _, OOk _ => 8
   | Ok _, OErr _ => 9
